@@ -39,6 +39,8 @@ type c06Plan struct {
 	Node       restNodeOpts    `json:"node"`
 	Tasks      [][]c06Op       `json:"tasks"`
 	Faulty     bool            `json:"faulty"`
+	// directed flavours: where the single injected fault may land
+	FaultOn string `json:"fault_on,omitempty"` // "" anywhere | "passive-doc0-write" | "active-doc-writes"
 }
 
 const c06Docs = 4
@@ -110,6 +112,28 @@ func c06Generate(seed uint64, tier string, index int) json.RawMessage {
 		p.Cfg.MaxFaults = r.Range(1, 3)
 		p.Cfg.FaultPermille = map[string]int{simnet.AltSever: 4, simstore.AltCasMiss: 30, simstore.AltErr: 6, simstore.AltStall: 6}
 		p.Cfg.MaxFaults = r.Range(1, 4)
+	}
+	switch index % 16 {
+	case 3:
+		// directed: a write on the sending side stays in flight (its sequence is allocated, the document is not stored
+		// yet) while later documents are sent, checkpointed and the replication is stopped; then the write lands
+		p.Direction, p.Faulty, p.FaultOn = "pull", true, "passive-doc0-write"
+		p.Node.PendingMaxMs = 500
+		p.Tasks = [][]c06Op{
+			{{Kind: "put", Side: 1, Doc: 0}},
+			{{Kind: "idle", Ms: 300}, {Kind: "put", Side: 1, Doc: 1}, {Kind: "put", Side: 1, Doc: 2}, {Kind: "idle", Ms: 14000}, {Kind: "repl-stop"}, {Kind: "idle", Ms: 9000}},
+		}
+		p.Cfg.MaxFaults, p.Cfg.FaultPermille = 1, map[string]int{simstore.AltStall: 1000}
+		p.Cfg.ClockPermille = 60
+	case 11:
+		// directed: one document write of the receiving side fails while it pulls
+		p.Direction, p.Faulty, p.FaultOn = "pull", true, "active-doc-writes"
+		p.Tasks = [][]c06Op{
+			{{Kind: "put", Side: 1, Doc: 0}, {Kind: "put", Side: 1, Doc: 1}},
+			{{Kind: "idle", Ms: 200}, {Kind: "put", Side: 1, Doc: 2}, {Kind: "idle", Ms: 7000}},
+		}
+		p.Cfg.MaxFaults, p.Cfg.FaultPermille = 1, map[string]int{simstore.AltErr: 1000}
+		p.Cfg.ClockPermille = 60
 	}
 	return mustJSON(p)
 }
@@ -198,6 +222,15 @@ func c06Run(env *verifsim.Env, raw json.RawMessage) *verifsim.Violation {
 	}
 	watch(0, active)
 	watch(1, passive)
+	switch p.FaultOn {
+	case "passive-doc0-write":
+		active.node.NoFaultKeys = func(string) bool { return true }
+		passive.node.NoFaultKeys = func(key string) bool { return key != "doc0" }
+		passive.node.StallFor = 20 * time.Second
+	case "active-doc-writes":
+		passive.node.NoFaultKeys = func(string) bool { return true }
+		active.node.NoFaultKeys = func(key string) bool { return simstore.KeyClass(key) != "doc" }
+	}
 	docID := func(i int) string { return fmt.Sprintf("doc%d", i) }
 	var setupErr, replCfg string
 	if cerr := s.Call("setup", func() {
